@@ -13,7 +13,7 @@ import (
 
 type c02Extra struct {
 	Pos  string `json:"pos"`  // idle (before the invocation) | init (reserved, runtime not yet at next) | working (dispatched, not answered) | answered (accepted, before next)
-	ID   string `json:"id"`   // garbage | nth:<k> (k-th id any runtime has received: stale) | cur (current id; only in position answered = duplicate)
+	ID   string `json:"id"`   // garbage | nth:<k> (k-th id any runtime has received: stale) | cur (current id; only in position answered = duplicate) | mut:<upper|trunc|ext|flip>:nth:<k> (an unknown id one edit away from a real one)
 	Call string `json:"call"` // rt.response | rt.error
 	From string `json:"from"` // driver (another process) | runtime
 }
@@ -402,6 +402,12 @@ func c02Gen(t *rapid.T) c02Case {
 			if x.Pos == "answered" {
 				ids = append(ids, "cur", "cur", fmt.Sprintf("nth:%d", j))
 			}
+			if x.Pos == "working" || x.Pos == "answered" {
+				// unknown ids that differ from the in-flight one in a single respect (letter case, one character more or less)
+				for _, m := range []string{"upper", "upper", "trunc", "ext", "flip"} {
+					ids = append(ids, fmt.Sprintf("mut:%s:nth:%d", m, j))
+				}
+			}
 			x.ID = rapid.SampledFrom(ids).Draw(t, fmt.Sprintf("id%d_%d", j, k))
 			if x.ID == "cur" {
 				x.From = "runtime" // "cur" is the submitting runtime's own current id
@@ -427,6 +433,11 @@ func c02Fixed() []c02Case {
 			{Kind: "ok", Extras: []c02Extra{{Pos: "init", ID: "nth:1", Call: "rt.response", From: "driver"}, {Pos: "working", ID: "nth:1", Call: "rt.response", From: "driver"}, {Pos: "answered", ID: "nth:2", Call: "rt.error", From: "driver"}}},
 			{Kind: "crash"},
 			{Kind: "error", Extras: []c02Extra{{Pos: "idle", ID: "nth:3", Call: "rt.response", From: "driver"}}},
+		}},
+		{Family: "history", Invs: []c02Inv{
+			{Kind: "ok", Extras: []c02Extra{{Pos: "working", ID: "mut:upper:nth:0", Call: "rt.response", From: "runtime"}}},
+			{Kind: "error", Extras: []c02Extra{{Pos: "working", ID: "mut:trunc:nth:1", Call: "rt.error", From: "driver"}, {Pos: "answered", ID: "mut:upper:nth:1", Call: "rt.response", From: "runtime"}}},
+			{Kind: "ok", Extras: []c02Extra{{Pos: "working", ID: "mut:ext:nth:2", Call: "rt.response", From: "driver"}, {Pos: "working", ID: "mut:flip:nth:2", Call: "rt.error", From: "runtime"}}},
 		}},
 	}
 }
